@@ -451,11 +451,12 @@ impl<'tcx> Cx<'tcx> {
                         ts.push(format!("[{},{}]", js(&v.to_string()), t.as_usize()));
                     }
                     format!(
-                        "{{\"k\":\"switch\",\"discr\":{},\"dty\":{},\"targets\":{},\"otherwise\":{}}}",
+                        "{{\"k\":\"switch\",\"discr\":{},\"dty\":{},\"targets\":{},\"otherwise\":{},\"ex\":{}}}",
                         self.operand(owner, body, discr),
                         js(&self.ty_s(discr.ty(&body.local_decls, tcx))),
                         jlist(&ts),
-                        targets.otherwise().as_usize()
+                        targets.otherwise().as_usize(),
+                        jlist(&self.expn_list(tsp))
                     )
                 }
                 TerminatorKind::Return => "{\"k\":\"return\"}".to_string(),
